@@ -30,6 +30,8 @@ Menu == {From(HexOf(IdA), 0, HexOf(LockA), 5000),
          From(HexOf(Rep(170, 31)), 0, HexOf(LockA), 5000),
          From(HexOf(IdA), 0, <<122, 122>>, 5000),
          From(HexOf(IdA), 7, HexOf(DataS), 0),
+         \* an input worth more than 2^63 satoshis (amounts are 64-bit values, whatever the supply)
+         [k |-> "from", txidc |-> HexOf(IdA), vout |-> LE32(9), psc |-> HexOf(LockA), sats |-> <<5, 0, 0, 0, 0, 0, 0, 200>>],
          [k |-> "fromutxos", utxos |-> <<Ut(IdA, 2, LockA, 900), Ut(Rep(1, 5), 0, LockA, 1), Ut(IdA, 3, LockA, 900)>>],
          [k |-> "fromutxos", utxos |-> <<Ut(IdA, 4, LockA, 100000)>>],
          [k |-> "addoutput", sats |-> LE64(600), ls |-> LockA],
@@ -89,7 +91,7 @@ OthersUntouched == [][\A j \in 1..Len(objs) : j # hist'[Len(hist')].o => objs'[j
 \* a change that adds or raises an output leaves the quoted fee paid (amounts small here)
 ChangePays == [][(hist'[Len(hist')].op.k \in {"change", "changeexisting"} /\ last' = "ok" /\ objs' # objs) =>
                    LET t == objs'[hist'[Len(hist')].o] IN
-                   Enough(ToB(t), EstSizes(ToB(t)), hist'[Len(hist')].op.q)]_vars
+                   AllSmall(t) => Enough(ToB(t), EstSizes(ToB(t)), hist'[Len(hist')].op.q)]_vars
 \* new objects are wire-equal to their source
 CopiesEqual == [][(Len(objs') = Len(objs) + 1) =>
                    LET o == hist'[Len(hist')].o  op == hist'[Len(hist')].op  c == objs'[Len(objs')] IN
